@@ -116,7 +116,7 @@ def make_network(rng, fam, N, ids="shuffled", assort=0.0, graph_cls=MonitoredGra
         classes = [(x,) for x in rng.sample([1, 2, 3, 4], k)]
     else:
         classes = [tuple(c) for c in rng.sample(base, k)]
-    G, info = build_clean_network(rng, N, families, classes, assort=assort, ids=ids, graph_cls=graph_cls)
+    G, info = build_clean_network(rng, N, families, classes, assort=assort, ids=ids, graph_cls=graph_cls, scramble=rng.random() < 0.5)
     return G, info, classes
 
 
